@@ -68,6 +68,12 @@ type rowAdder interface {
 // dir and returns its path and the ids AddRow returned.
 func Build(dir string, rows []model.Row, cfg int) (path string, ids []uint32, err error) {
 	path = TempPath(dir, "idx-"+WriterName[cfg]) + ".updog"
+	ids, err = BuildAt(path, rows, cfg)
+	return path, ids, err
+}
+
+// BuildAt is Build with a caller-chosen (not yet existing) output path.
+func BuildAt(path string, rows []model.Row, cfg int) (ids []uint32, err error) {
 	err = Safe(func() error {
 		add := func(w rowAdder) error {
 			ids = make([]uint32, 0, len(rows))
@@ -122,7 +128,7 @@ func Build(dir string, rows []model.Row, cfg int) (path string, ids []uint32, er
 		}
 		return fmt.Errorf("bad writer cfg %d", cfg)
 	})
-	return path, ids, err
+	return ids, err
 }
 
 // Counter implements updog.CounterMetric.
